@@ -173,6 +173,31 @@ func sqlOf(c Case) string {
 	}
 }
 
+// waitProgress polls cond; it gives up ("stalled") when the progress counter has not moved for idle, and reports
+// "slow" when cond is still false after hardCap although progress continued.
+func waitProgress(cond func() bool, progress func() int64, idle, hardCap time.Duration) string {
+	start := time.Now()
+	last, lastAt := progress(), time.Now()
+	for {
+		if cond() {
+			return "ok"
+		}
+		if p := progress(); p != last {
+			last, lastAt = p, time.Now()
+		}
+		if time.Since(lastAt) > idle {
+			if cond() {
+				return "ok"
+			}
+			return "stalled"
+		}
+		if time.Since(start) > hardCap {
+			return "slow"
+		}
+		time.Sleep(200 * time.Microsecond)
+	}
+}
+
 // guard runs f and records a panic escaping from an engine API call.
 func guard(op string, escaped *atomic.Value, f func()) {
 	defer func() {
@@ -384,23 +409,38 @@ func runCase(c Case) (res pbt.Result) {
 	if c.Sentinel && !hasReStop && c.Strategy == "block" {
 		pd := make(chan struct{})
 		go func() { producersWG.Wait(); close(pd) }()
-		select {
-		case <-pd:
-			guard("Emit", &escaped, func() { s.Emit(map[string]any{"id": 777777777, "v": 1, "k": "s"}) })
-			deadline := time.Now().Add(pbt.Wait(5 * time.Second))
-			for atomic.LoadInt32(&sentinelSeen) == 0 && time.Now().Before(deadline) {
-				time.Sleep(200 * time.Microsecond)
+		// Both waits end on lack of progress, not on elapsed time: while sinks are still being called the backlog is
+		// being worked off (re-entrant sinks, perturbation points and a loaded machine make that arbitrarily slow).
+		progress := func() int64 { return atomic.LoadInt64(&sinkCalls) }
+		returned := func() bool {
+			select {
+			case <-pd:
+				return true
+			default:
+				return false
 			}
-			sentinelOK = atomic.LoadInt32(&sentinelSeen) == 1
-		case <-time.After(pbt.Wait(30 * time.Second)):
-			res.Add(pbt.D("producers-stuck", "producers did not return within 30 s (strategy %s, kind %s)", c.Strategy, c.Kind))
+		}
+		switch waitProgress(returned, progress, pbt.Wait(30*time.Second), 4*time.Minute) {
+		case "ok":
+			guard("Emit", &escaped, func() { s.Emit(map[string]any{"id": 777777777, "v": 1, "k": "s"}) })
+			switch waitProgress(func() bool { return atomic.LoadInt32(&sentinelSeen) == 1 }, progress, pbt.Wait(5*time.Second), 4*time.Minute) {
+			case "ok":
+			case "stalled":
+				sentinelOK = false
+			default:
+				res.Class("no-verdict:slow")
+			}
+		case "stalled":
+			res.Add(pbt.D("producers-stuck", "producers did not return and no sink was called for 30 s (strategy %s, kind %s)", c.Strategy, c.Kind))
+		default:
+			res.Class("no-verdict:slow")
 		}
 		res.Class("sentinel")
 	} else {
 		time.Sleep(stopDelay)
 	}
 	if !sentinelOK {
-		res.Add(pbt.D("sentinel-lost", "kind %s: a row emitted after panicking sinks/rows was not delivered within 5 s (block strategy, before Stop)", c.Kind))
+		res.Add(pbt.D("sentinel-lost", "kind %s: a row emitted after panicking sinks/rows was not delivered although no sink had been called for 5 s (block strategy, before Stop)", c.Kind))
 	}
 	// Stop callers
 	inflight := producersInFlight(&producersWG)
